@@ -80,7 +80,8 @@ let run_bool (a : Sx.t list) : string =
 
 let pvs_of (l : Sx.t) : PossibleValues.possible_value list =
   Stdlib.List.map (fun pv ->
-      match Sx.list pv with
+      (* a leading `hide` marks a declared value hidden from listings: PossibleValue::matches does not consult it *)
+      match (match Sx.list pv with Sx.Sym "hide" :: r -> r | l -> l) with
       | n :: al -> { PossibleValues.pv_name = bs_of_ints (Sx.bytes n);
                      pv_aliases = Stdlib.List.map (fun x -> bs_of_ints (Sx.bytes x)) al }
       | [] -> failwith "empty possible value") (Sx.list l)
